@@ -53,13 +53,14 @@ type FuncContract struct {
 	Asserts    []PointAssert
 	Trusted    bool
 	Inline     bool
-	Terminates bool       // termination obligations: loop measures and recursion measure
-	Decreases  *Clause    // function-level measure for (self-)recursive calls
-	GhostSets  []GhostSet // ghost assignments performed on entry (specification state updated by this function)
-	OwnReads   []string   // heap key prefixes: plain loads from these keys must read objects allocated by this activation
-	AtomicOnly []string   // captured variables of a goroutine body that may only be accessed through sync/atomic: no plain load or store may touch their cell
-	Guards     []Guard    // lock discipline: plain accesses to these keys need the condition
-	MapKeys    []Guard    // domain refinement: every key stored into a map with this domain key satisfies Cond ($key)
+	Terminates bool            // termination obligations: loop measures and recursion measure
+	Decreases  *Clause         // function-level measure for (self-)recursive calls
+	GhostSets  []GhostSet      // ghost assignments performed on entry (specification state updated by this function)
+	OwnReads   []string        // heap key prefixes: plain loads from these keys must read objects allocated by this activation
+	AtomicOnly []string        // captured variables of a goroutine body that may only be accessed through sync/atomic: no plain load or store may touch their cell
+	Guards     []Guard         // lock discipline: plain accesses to these keys need the condition
+	MapKeys    []Guard         // domain refinement: every key stored into a map with this domain key satisfies Cond ($key)
+	Abstract   map[string]bool // callees that are not inlined while this function is verified: their effect is their static write set
 	PointSets  []PointSet
 	OwnWrites  []string        // heap key prefixes: stores into these keys must target objects allocated by this activation
 	Calls      []string        // parameters holding functions the callee may invoke: their write sets are added at call sites
@@ -144,7 +145,7 @@ func newContractSet() *ContractSet {
 	return &ContractSet{Funcs: map[string]*FuncContract{}, Specs: map[string]*SpecFunc{}, Axioms: map[string]*Axiom{}, Ghosts: map[string]*GhostVar{}}
 }
 
-var keywordRe = regexp.MustCompile(`^(func|property|requires|ensures|modifies|loop|assert|trusted|inline|nopanic|safety|spec|axiom|lemma|invariant|ghostset|ghost|use|reveal|calls|ownwrites|ownreads|atomiconly|guarded|mapkeys|terminates|decreases|package)\b`)
+var keywordRe = regexp.MustCompile(`^(func|property|requires|ensures|modifies|loop|assert|trusted|inline|nopanic|safety|spec|axiom|lemma|invariant|ghostset|ghost|use|reveal|calls|ownwrites|ownreads|abstract|atomiconly|guarded|mapkeys|terminates|decreases|package)\b`)
 var labelRe = regexp.MustCompile(`^\[([A-Za-z0-9_.<>=%+\-]+)\]\s*(.*)$`)
 
 func canonFuncName(pkg, decl string) string {
@@ -409,6 +410,20 @@ func (cs *ContractSet) parseFile(path string, defaultPkg string) error {
 				return err
 			}
 			cur.MapKeys = append(cur.MapKeys, Guard{Prefix: m[1], Cond: c})
+		case "abstract":
+			// abstract <callee>...: sound over-approximation that keeps the obligations of a large function small
+			if cur == nil {
+				return fmt.Errorf("%s:%d: abstract outside func", path, it.line)
+			}
+			if cur.Abstract == nil {
+				cur.Abstract = map[string]bool{}
+			}
+			for _, n := range strings.Fields(strings.ReplaceAll(it.text, ",", " ")) {
+				if n != "*" && !strings.Contains(n, ".") {
+					n = pkg + "." + n
+				}
+				cur.Abstract[n] = true
+			}
 		case "atomiconly":
 			if cur == nil {
 				return fmt.Errorf("%s:%d: atomiconly outside func", path, it.line)
